@@ -99,15 +99,15 @@ type Prover struct {
 	hi    map[string]int64
 	hasHi map[string]bool
 
-	atoms   map[string]*atomRef
-	defs    []defFact
-	conds   []condFact
-	seenDef map[ssa.Value]bool
-	rdCache map[string]func(ssa.Instruction) []ssa.Value
-	reach   [][]bool
-	escaped map[ssa.Value]*escInfo
-	holders map[ssa.Value]map[ssa.Value]bool
-	between map[[2]ssa.Instruction]map[ssa.Instruction]bool
+	atoms     map[string]*atomRef
+	defs      []defFact
+	conds     []condFact
+	seenDef   map[ssa.Value]bool
+	rdCache   map[string]func(ssa.Instruction) []ssa.Value
+	reach     [][]bool
+	escaped   map[ssa.Value]*escInfo
+	holders   map[ssa.Value]map[ssa.Value]bool
+	between   map[[2]ssa.Instruction]map[ssa.Instruction]bool
 	callCases map[string]*callCase
 	spilled   map[*ssa.Alloc]*ssa.Parameter
 	regs      map[string]ssa.Value
@@ -2269,11 +2269,11 @@ type PostFact struct {
 
 // FnSummary describes integer results of a repo function.
 type FnSummary struct {
-	Exact map[int]ILin // result index -> the same linear expression over parameter atoms at every return
-	Post  []PostFact
+	Exact      map[int]ILin // result index -> the same linear expression over parameter atoms at every return
+	Post       []PostFact
 	StructPost []StructPost
-	HeapPost []ILin // facts over parameter-rooted heap paths that hold at every return with a nil error
-	Cases map[int][]RetCase // result index -> the values the result can take, each with the conditions under which it is chosen
+	HeapPost   []ILin            // facts over parameter-rooted heap paths that hold at every return with a nil error
+	Cases      map[int][]RetCase // result index -> the values the result can take, each with the conditions under which it is chosen
 }
 
 // StructPost: len(result.Suffix) >= Min at every return (with a nil error when Success).
